@@ -119,7 +119,10 @@ def shape_body(sh):
     name = CALLEES[sh["callee"]][0]
     args = ", ".join(arg_text(a) for a in sh["args"])
     suf = SUFFIX[sh["kind"]]
-    if sh["style"] == "paren":
+    if sh["style"] == "paren" and sh.get("layout") == "multi" and sh["args"]:
+        # the wrapped call spans several lines: one argument per line, the operator after the closing parenthesis
+        call = "%s(\n%s\t)%s" % (name, "".join("\t\t%s,\n" % arg_text(a) for a in sh["args"]), suf)
+    elif sh["style"] == "paren":
         call = "%s(%s)%s" % (name, args, suf)
     elif sh["style"] == "cmd":
         call = "%s%s %s" % (name, suf, args)
@@ -131,6 +134,19 @@ def shape_body(sh):
     else:
         b += "\t%s\n\tlg(90, 0)\n" % call
     return b + "\treturn 7, nil\n"
+
+
+def shape_frame_line(sh, failing):
+    """Line (0-based in the function text) the source frame of the resulting error must name: where the wrapped
+    expression STARTS; None = the outcome carries no frame."""
+    if not failing:
+        return None
+    start = 5                                   # func header + 4 set-up lines
+    multi = sh["style"] == "paren" and sh.get("layout") == "multi" and sh["args"]
+    for i, a in enumerate(sh["args"]):
+        if a[0] == "nest" and a[1] == "!":
+            return start + 1 + i if multi else start      # the nested f1()! panics first, with its own frame
+    return None if sh["kind"] == "?:" else start
 
 
 def flat_args(sh, failing):
@@ -206,7 +222,10 @@ def fixed_shapes():
             S("!", "cmd", "va", [("nest", "!"), ("p", 82, 6), ("s", "z")]), S("?", "cmd", "e", [("p", 81, 1), ("p", 82, 2)]),
             S("!", "bare", "f1", [], "define"), S("?:", "bare", "f1", [], "define"), S("?", "bare", "f1", [], "define"),
             S("!", "bare", "f0", []), S("?", "bare", "f0", [])]
-    return [sh for sh in out if shape_valid(sh)]
+    out = [sh for sh in out if shape_valid(sh)]
+    # the same shapes with the wrapped call broken over several lines (frame line = first line of the call)
+    out += [dict(sh, layout="multi") for sh in out if sh["style"] == "paren" and sh["args"]]
+    return out
 
 
 def gen_shape(rng):
@@ -228,7 +247,8 @@ def gen_shape(rng):
                 args.append(("s", rng.choice(["a", "bc"])))
             else:
                 args.append(("i", rng.below(9)))
-        sh = {"kind": rng.choice(["!", "?", "?:"]), "style": style, "callee": callee, "args": args, "pos": rng.choice(["stmt", "define"])}
+        sh = {"kind": rng.choice(["!", "?", "?:"]), "style": style, "callee": callee, "args": args, "pos": rng.choice(["stmt", "define"]),
+              "layout": rng.choice(["one", "multi"])}
         if shape_valid(sh):
             return sh
 
@@ -544,8 +564,8 @@ def run(ctx):
     got = {}
     for l in out.splitlines():
         f = l.split("\t")
-        if len(f) == 4 and f[0].isdigit():
-            got[(int(f[0]), f[1] == "true")] = (f[2], f[3])
+        if len(f) == 5 and f[0].isdigit():
+            got[(int(f[0]), f[1] == "true")] = (f[2], f[3], f[4])
 
     mcases, keys = [], []
     for k, c in enumerate(cases):
@@ -592,9 +612,19 @@ def run(ctx):
         if g is None:
             impl_v.append("MISSING")
             continue
-        impl_v.append("%s\t%s" % g)
+        impl_v.append("%s\t%s" % g[:2])
         nontriv.add(mc)
         tr = g[1][len("trace=["):-1].split(" ") if g[1] != "trace=[]" else []
+        # "wrapped with its source frame": the frame names the file and the line where the wrapped expression starts
+        if g[0].endswith("E/1"):
+            if "shape" in c:
+                off = shape_frame_line(c["shape"], failing)
+            else:
+                off = next((i for i, ln in enumerate(sources[k].splitlines()) if re.search(r"\bf[012b]\(\)", ln)), None)
+            want_frame = "frame=main.xgo:%d" % (lines[k][0] + off) if off is not None else None
+            if want_frame is not None and g[2] != want_frame:
+                ctx.fail("frame:" + vlib.sha(sources[k]), "the error's source frame is %s, the wrapped expression starts at %s in:\n%s" % (g[2], want_frame, sources[k]),
+                         {"source": sources[k], "first_line_of_function": lines[k][0], "impl": list(g)})
         if "opctx" in c:
             sq, t, ty = c["opctx"]
             want, wtr = opctx_expected(t, ty, failing)
